@@ -1,11 +1,18 @@
 (* Props/C20.v — work done per instruction is bounded by the gas it pays. *)
 From Verif Require Import Base.Bytes Model.Journal Model.SolLayout Model.Precompile
-  Proofs.Journal_proofs Proofs.Work_proofs Gen.GenProps Gen.G20.
+  Proofs.Journal_proofs Proofs.Work_proofs Gen.GenProps Gen.GInheritedVm Gen.G20.
 Open Scope N_scope.
 
 Theorem C20_source_reviewed : group_ok 20 = true.
 Proof. exact gen_group_20. Qed.
 Print Assumptions C20_source_reviewed.
+
+(** for the inherited instruction set and the standard precompiles the bound is go-ethereum v1.12.0's: every declaration of
+    vm/ and core/ (gas functions, memory-size functions, instruction bodies, precompile fee functions) is identical to
+    upstream's or one of the reviewed Artela modifications — re-established from the syntax trees on every run *)
+Theorem C20_inherited_work_rules_identical : inherited_ok ["vm"; "core"]%string && pins_live && nothing_deleted = true.
+Proof. exact gen_inherited_vm. Qed.
+Print Assumptions C20_inherited_work_rules_identical.
 
 (** NOT provable — kept visible: the full statement is false of the reference journal (known finding F7).
     Its number of storage reads is 1 + ceil(len/32) where len comes from a storage word the contract
